@@ -69,6 +69,7 @@ type verifCtx struct {
 }
 
 type Engine struct {
+	rename     map[string]string // old local name -> current name for the function under verification (shape.go)
 	prog       *ssa.Program
 	fset       *token.FileSet
 	pkgs       map[string]*ssa.Package
